@@ -158,6 +158,38 @@ def clause_echo_table(prog, rep, scope):
     rep.floor("echo-transition-table", "CannotDecryptOwnMessage handler with state dispatch", hits, 1)
 
 
+def _offset_walk(prog, f, epoch_local):
+    """(lo operand, hi operand, inclusive?, loc) of a range of distances that a closure subtracts from a captured value to produce the
+    epoch handed to the lookup; None if the epoch is not produced that way"""
+    dep, calls, _ = f.depends_on(epoch_local)
+    for c in calls:
+        if c.name not in ("map", "map_while", "filter_map", "flat_map") or not c.args or "p" not in c.args[0]:
+            continue
+        bodies = A.closure_args(prog, c)
+        if not any(y.name in ("checked_sub", "saturating_sub", "sub", "wrapping_sub") for g in bodies for y in g.live_calls()) and \
+                not any(st.get("k") == "binop" and str(st.get("op", "")).startswith("Sub") for g in bodies for _, st in g.stmts()):
+            continue
+        # the subtrahend is the closure's own parameter (the distance), the minuend is captured
+        okb = False
+        for g in bodies:
+            for y in g.live_calls():
+                if y.name in ("checked_sub", "saturating_sub", "sub", "wrapping_sub") and len(y.args) == 2 and all("p" in a_ for a_ in y.args):
+                    d0, _, _ = g.depends_on(y.args[0]["p"][0])
+                    d1, _, _ = g.depends_on(y.args[1]["p"][0])
+                    if (1 in d0 | {y.args[0]["p"][0]}) and (2 in d1 | {y.args[1]["p"][0]}):
+                        okb = True
+        if not okb:
+            continue
+        rdep, _, _ = f.depends_on(c.args[0]["p"][0])
+        for bb, s2 in f.stmts():
+            if s2.get("k") == "agg" and last_seg(s2.get("adt")) in ("Range", "RangeInclusive") and s2["d"][0] in rdep | {c.args[0]["p"][0]} and len(s2.get("o", [])) >= 2:
+                return s2["o"][0], s2["o"][1], last_seg(s2.get("adt")) == "RangeInclusive", "%s:%s" % (f.file, s2.get("line"))
+        for y in f.live_calls():
+            if y.name == "new" and "RangeInclusive" in (y.self_ty or y.path or "") and y.dst and y.dst[0] in rdep | {c.args[0]["p"][0]} and len(y.args) == 2:
+                return y.args[0], y.args[1], True, y.loc()
+    return None
+
+
 def clause_lookback(prog, rep, scope):
     core = K.core_scope(prog)
     sites = []
@@ -183,6 +215,7 @@ def clause_lookback(prog, rep, scope):
                   "configured window, messages OpenMLS could still decrypt are lost at the wrapper layer", c.loc())
     rep.floor("lookback-from-config", "iterated past-epoch lookup", 1 if any_loop else 0, 1)
     # window arithmetic: the epochs tried are exactly current-1 down to current-L (L = the lookback), i.e. L epochs
+    n_constructs = 0
     for c in sites:
         f = c.fn
         a = c.args[-1]
@@ -193,6 +226,29 @@ def clause_lookback(prog, rep, scope):
         range_aggs = [(bb, s2) for bb, s2 in f.stmts() if s2.get("k") == "agg" and last_seg(s2.get("adt")) in ("Range", "RangeInclusive")
                       and s2["d"][0] in f.depends_on(a["p"][0])[0]]
         if not ranges and not range_aggs:
+            # the walk written as offsets: `(1..=L).map_while(|back| current.checked_sub(back))` — a range of distances mapped by a closure
+            # that subtracts the distance from the current epoch
+            off = _offset_walk(prog, f, a["p"][0])
+            if off is None:
+                continue
+            lo, hi, incl, loc = off
+            u64_params = [l for l in range(1, f.nargs + 1) if f.locals[l] == "u64"]
+            if len(u64_params) != 1:
+                continue
+            env = affine.evaluate(f, {u64_params[0]: affine.sym("L")}, lambda x: None)
+            lo_v = env.get(lo["p"][0]) if "p" in lo else (affine.const(lo["c"]["int"]) if isinstance(lo.get("c"), dict) and isinstance(lo["c"].get("int"), int) else None)
+            hi_v = env.get(hi["p"][0]) if "p" in hi else (affine.const(hi["c"]["int"]) if isinstance(hi.get("c"), dict) and isinstance(hi["c"].get("int"), int) else None)
+            n_constructs += 1
+            if lo_v is None or hi_v is None:
+                rep.note("lookback-window-arithmetic: offset range bounds are not affine in the lookback at %s — clause not decided for this construction" % loc)
+                continue
+            count = affine.add(affine.add(hi_v, lo_v, -1), affine.const(1 if incl else 0))
+            ok = count == affine.sym("L") and lo_v == affine.const(1)
+            what = "distances %s %s %s subtracted from the current epoch" % (lo_v, "..=" if incl else "..", hi_v)
+            rep.check(ok, "lookback-window-arithmetic", "MDK::process_message/past-epoch-range",
+                      "the fallback tries exactly the L epochs current-1 .. current-L (%s), in the regime current >= L >= 1" % what,
+                      "the outer-layer fallback does not try exactly the epochs current-1 down to current-L (%s): a message that is exactly "
+                      "L epochs late (inside the configured window) can no longer be opened" % what, loc)
             continue
         # symbols: current epoch and the lookback parameter (the u64 parameter of the function)
         u64_params = [l for l in range(1, f.nargs + 1) if f.locals[l] == "u64"]
@@ -209,9 +265,22 @@ def clause_lookback(prog, rep, scope):
             return None
         env = affine.evaluate(f, seeds, call_syms)
         verdicts = []
+
+        def _val(o):
+            if "p" in o:
+                return env.get(o["p"][0])
+            if isinstance(o.get("c"), dict) and isinstance(o["c"].get("int"), int):
+                return affine.const(o["c"]["int"])
+            return None
+        off = _offset_walk(prog, f, a["p"][0])
         for r in ranges:
-            lo = env.get(r.args[0]["p"][0]) if "p" in r.args[0] else None
-            hi = env.get(r.args[1]["p"][0]) if "p" in r.args[1] else None
+            lo = _val(r.args[0])
+            hi = _val(r.args[1])
+            if off is not None and lo is not None and hi is not None:
+                count = affine.add(affine.add(hi, lo, -1), affine.const(1))
+                verdicts.append((count == affine.sym("L") and lo == affine.const(1),
+                                 "distances %s ..= %s subtracted from the current epoch" % (lo, hi), r.loc()))
+                continue
             if lo is None or hi is None:
                 verdicts.append((None, "range bounds are not affine in (current epoch, lookback)", r.loc()))
                 continue
@@ -220,8 +289,15 @@ def clause_lookback(prog, rep, scope):
                              "inclusive range [%s ..= %s]" % (lo, hi), r.loc()))
         for bb, s2 in range_aggs:
             ops = s2["o"]
-            lo = env.get(ops[0]["p"][0]) if "p" in ops[0] else None
-            hi = env.get(ops[1]["p"][0]) if "p" in ops[1] else None
+            lo = _val(ops[0])
+            hi = _val(ops[1])
+            if off is not None and lo is not None and hi is not None:
+                # a range of *distances* (subtracted from the current epoch by the mapping closure), not of epochs
+                incl = last_seg(s2.get("adt")) == "RangeInclusive"
+                count = affine.add(affine.add(hi, lo, -1), affine.const(1 if incl else 0))
+                verdicts.append((count == affine.sym("L") and lo == affine.const(1),
+                                 "distances %s %s %s subtracted from the current epoch" % (lo, "..=" if incl else "..", hi), "%s:%s" % (f.file, s2.get("line"))))
+                continue
             if lo is None or hi is None:
                 verdicts.append((None, "range bounds are not affine in (current epoch, lookback)", "%s:%s" % (f.file, s2.get("line"))))
                 continue
@@ -239,7 +315,8 @@ def clause_lookback(prog, rep, scope):
                           "the fallback tries exactly the L epochs current-1 .. current-L (%s), in the regime current >= L >= 1" % what,
                           "the outer-layer fallback does not try exactly the epochs current-1 down to current-L (%s): a message that is exactly "
                           "L epochs late (inside the configured window) can no longer be opened" % what, loc)
-        rep.floor("lookback-window-arithmetic", "epoch range constructions", len(verdicts), 1)
+        n_constructs += len(verdicts)
+    rep.floor("lookback-window-arithmetic", "epoch range constructions", n_constructs, 1)
     # inventory: every public MdkConfig field is read by non-test code
     cfg = prog.adt("MdkConfig", crate="mdk_core")
     read = set()
